@@ -2,7 +2,8 @@
 Driver for C12.  Strings travel as comma-separated decimal code points (`_` = empty string).
 
 PAT x=<0|1> v=<10|11> f=<flags: subset of s m x q, or _> mode=<search|full|ctx> src=<cps> subj=<cps>;<cps>;...
-  (mode=ctx: each subject is <prev|->:<cps>:<next|->, answered by derivMatch in that context)
+  (mode=ctx: each subject is <prev|->:<cps>:<next|->, answered by derivMatch in that context;
+   mode=lms: each subject is <k>:<cps>, answered in `lms=` by the leftmost match start >= k or `-`)
   -> valid=<1|0> unclear=<0|1> f12=<0|1> scan=<0|1> bref=<0|1> props=<1|0> model=<bits|-> spec=<bits|->
      valid   : the text is a regExp of the flavour (x=1: F&O 3.1, x=0: plain XSD) with quantities
                n<=m, ordered ranges, known \p{..} names, back-references to closed groups
@@ -164,6 +165,7 @@ def answerPat (fs : List (String × String)) : String :=
   | some src0 =>
     let subjS := (field fs "subj").splitOn ";" |>.filter (· ≠ "")
     let ctxMode := field fs "mode" == "ctx"
+    let lmsMode := field fs "mode" == "lms"
     -- a subject is `<cps>` or, in ctx mode, `<prev|->:<cps>:<next|->`
     let parseSubj (t : String) : Option (Option Ch × List Ch × Option Ch) :=
       if ctxMode then
@@ -173,6 +175,10 @@ def answerPat (fs : List (String × String)) : String :=
           let a' ← if a == "-" then some none else (nat? a).map some
           let b' ← if b == "-" then some none else (nat? b).map some
           pure (a', w', b')
+        | _ => none
+      else if lmsMode then
+        match t.splitOn ":" with
+        | [k, w] => do let w' ← parseCps w; let k' ← nat? k; pure (some k', w', none)   -- (start index, subject, -)
         | _ => none
       else (parseCps t).map fun w => (none, w, none)
     match subjS.mapM parseSubj with
@@ -202,6 +208,11 @@ def answerPat (fs : List (String × String)) : String :=
         let model := match toREM v10 xp fl r with
           | some rm => bits (subjs.map (run rm))
           | none => "ERR"
+        if lmsMode then
+          let one (s : Option Ch × List Ch × Option Ch) : String :=
+            match leftmostStart rs s.2.1 (s.1.getD 0) with | some i => toString i | none => "-"
+          hdr ++ " lms=" ++ ";".intercalate (subjs.map one)
+        else
         hdr ++ " model=" ++ model ++ " spec=" ++ bits (subjs.map (run rs))
 
 def parseSpans (s : String) : Option (List Span) :=
@@ -232,11 +243,21 @@ def answerFun (fs : List (String × String)) : String :=
     s!" san={showAn (specAnalyze s 0 spans)} stok={showToks (specTokenize s spans)} srep={showCps (specReplace s parts 0 spans)}"
   | _, _, _ => "bad-fun"
 
+/-- `BRF digits=<d,d,..> groups=<n>` -> model=<group>:<literal digits|_> spec=<group>:<literal digits|_> -/
+def answerBrf (fs : List (String × String)) : String :=
+  match parseCps (field fs "digits"), nat? (field fs "groups") with
+  | some ds, some g =>
+    let sh (r : Nat × List Nat) : String :=
+      s!"{r.1}:{if r.2.isEmpty then "_" else String.join (r.2.map toString)}"
+    s!"model={sh (resolveM ds g)} spec={sh (resolveS ds g)}"
+  | _, _ => "bad-brf"
+
 def answer (line : String) : String :=
   let line := line.trimAscii.toString
   if line.startsWith "PAT " then answerPat (fields (line.drop 4).toString)
   else if line.startsWith "FUN " then answerFun (fields (line.drop 4).toString)
   else if line.startsWith "CLS " then answerCls (fields (line.drop 4).toString)
+  else if line.startsWith "BRF " then answerBrf (fields (line.drop 4).toString)
   else "bad-line"
 
 end EPV.Regex
